@@ -199,6 +199,7 @@ type world struct {
 	obsHash   vsimHash
 	obsLog    []string
 	keepObs   bool
+	canonEmit bool // twin comparison over canonicalised packets (C16)
 }
 
 // observe records one externally observable event (API call result, emitted packet) for twin comparisons.
@@ -288,7 +289,7 @@ func (w *world) onSend(c *simConn, raw []byte) {
 	w.allPkts = append(w.allPkts, p)
 	w.sim.trace.addBytes(raw)
 	w.sim.trace.addInt(int64(p.at))
-	if w.keepObs {
+	if w.keepObs && !w.canonEmit {
 		w.observe(fmt.Sprintf("emit %s t=%v %x", []string{"A", "B"}[c.side], p.at, raw))
 	}
 	for _, m := range w.mons {
@@ -296,6 +297,9 @@ func (w *world) onSend(c *simConn, raw []byte) {
 	}
 	if w.onEmitHook != nil {
 		w.onEmitHook(p)
+	}
+	if w.keepObs && w.canonEmit && w.wm != nil {
+		w.observe(fmt.Sprintf("emit %s t=%v %s", []string{"A", "B"}[c.side], p.at, w.canonPacket(p)))
 	}
 	w.net.send(c.side, w.eps[1-c.side].conn, p)
 	if w.verbose != nil {
